@@ -351,6 +351,9 @@ func modelRun(env *Env, w *world.World, opt model.Options, restarts map[uint32]b
 			if res.Skipped {
 				mr.Skipped++
 			}
+			for _, p := range res.Probes {
+				env.Stats.Probe("model: " + p)
+			}
 			ms, bals, err := compareBlock(r.RO(), l, res, prev)
 			if err != nil {
 				cerr = err
